@@ -20,6 +20,8 @@ import (
 	"encoding/json"
 	"fmt"
 	"io"
+	"os"
+	"path/filepath"
 	"sort"
 	"strconv"
 	"strings"
@@ -183,6 +185,66 @@ type cliCase struct {
 	Sep   string   `json:"sep,omitempty"`   // white space between documents (default "\n")
 	Tail  string   `json:"tail,omitempty"`  // malformed text after the last document
 	End   string   `json:"end,omitempty"`   // white space at the very end
+	// Files, when present, are the input sources given as arguments after the
+	// query (written into a scratch directory); Docs/Tail above stay empty.
+	Files []fileSpec `json:"files,omitempty"`
+}
+
+// fileSpec is one input source named on the command line.
+type fileSpec struct {
+	Kind string   `json:"kind"` // file | stdin ("-") | missing (a name that does not exist)
+	Docs []string `json:"docs,omitempty"`
+	Sep  string   `json:"sep,omitempty"`
+	Tail string   `json:"tail,omitempty"`
+	End  string   `json:"end,omitempty"`
+}
+
+func (c cliCase) fileNames() []string {
+	var names []string
+	for i, f := range c.Files {
+		switch f.Kind {
+		case "stdin":
+			names = append(names, "-")
+		case "missing":
+			names = append(names, fmt.Sprintf("missing%d.json", i))
+		default:
+			names = append(names, fmt.Sprintf("f%d.json", i))
+		}
+	}
+	return names
+}
+
+// sourceText is the content of one input source: JSON documents separated by
+// white space, or under --yaml-input the same documents (flow style) each
+// after a "---" line; then the malformed tail.
+func sourceText(yaml bool, docs []string, sep, tail, end string) []byte {
+	var b bytes.Buffer
+	if yaml {
+		for _, d := range docs {
+			b.WriteString("---\n" + d + "\n")
+		}
+		if tail != "" {
+			b.WriteString("---\n" + tail + "\n")
+		}
+		return b.Bytes()
+	}
+	if sep == "" {
+		sep = "\n"
+	}
+	for i, d := range docs {
+		if i > 0 {
+			b.WriteString(sep)
+		}
+		b.WriteString(d)
+	}
+	if tail != "" {
+		if len(docs) > 0 {
+			b.WriteString(sep)
+		}
+		b.WriteString(tail)
+	}
+	b.WriteString(end)
+	return b.Bytes()
 }
 
 func (c cliCase) argv() []string {
@@ -193,7 +255,7 @@ func (c cliCase) argv() []string {
 	if !c.NoQ {
 		args = append(args, c.Text)
 	}
-	return append(args, c.Post...)
+	return append(append(args, c.Post...), c.fileNames()...)
 }
 
 func isSpace(s string) bool { return strings.Trim(s, " \t\r\n") == "" }
@@ -225,8 +287,8 @@ func (c cliCase) stdin() []byte {
 // the forms the generators produce
 
 type opts struct {
-	raw, join, raw0, compact, tab, exit, null, slurp, stream bool
-	indent                                                   *int
+	raw, join, raw0, compact, tab, exit, null, slurp, stream, yaml bool
+	indent                                                         *int
 }
 
 var longBool = map[string]func(*opts){
@@ -239,6 +301,7 @@ var longBool = map[string]func(*opts){
 	"null-input":     func(o *opts) { o.null = true },
 	"slurp":          func(o *opts) { o.slurp = true },
 	"stream":         func(o *opts) { o.stream = true },
+	"yaml-input":     func(o *opts) { o.yaml = true },
 }
 
 var shortBool = map[byte]string{'r': "raw-output", 'j': "join-output", 'c': "compact-output", 'e': "exit-status", 'n': "null-input", 's': "slurp"}
@@ -246,7 +309,7 @@ var shortBool = map[byte]string{'r': "raw-output", 'j': "join-output", 'c': "com
 // flags the command has but this model does not cover: a case using one of
 // them is a harness error, not a verdict.
 var otherLong = map[string]bool{"yaml-output": true, "color-output": true, "monochrome-output": true, "raw-input": true,
-	"yaml-input": true, "from-file": true, "library-path": true, "arg": true, "argjson": true, "slurpfile": true, "rawfile": true,
+	"from-file": true, "library-path": true, "arg": true, "argjson": true, "slurpfile": true, "rawfile": true,
 	"args": true, "jsonargs": true, "version": true, "help": true}
 var otherShort = "CMRfLvh"
 
@@ -397,7 +460,7 @@ func keysSorted(text string) bool {
 type stream struct {
 	items    []any // values; the last one may be an error (malformed tail)
 	pos      int
-	tailSeen bool
+	tailSeen int      // error values handed out so far
 	notes    []string // what debug / stderr wrote since the last takeNotes
 }
 
@@ -425,18 +488,20 @@ type tailError struct{}
 
 func (tailError) Error() string { return "malformed input (harness model)" }
 
-func newStream(o opts, docs []any, tail bool) *stream {
+// newStream takes the values of all input sources in order, an error value
+// standing for each malformed tail / unreadable file (the source ends there,
+// the next one continues).  --slurp collects up to the first error and then
+// yields only that error.
+func newStream(o opts, units []any) *stream {
 	if o.slurp {
-		if tail {
-			return &stream{items: []any{tailError{}}}
+		for _, u := range units {
+			if _, bad := u.(error); bad {
+				return &stream{items: []any{tailError{}}}
+			}
 		}
-		return &stream{items: []any{append([]any{}, docs...)}}
+		return &stream{items: []any{append([]any{}, units...)}}
 	}
-	items := append([]any{}, docs...)
-	if tail {
-		items = append(items, tailError{})
-	}
-	return &stream{items: items}
+	return &stream{items: append([]any{}, units...)}
 }
 
 func (s *stream) Next() (any, bool) {
@@ -446,7 +511,7 @@ func (s *stream) Next() (any, bool) {
 	v := s.items[s.pos]
 	s.pos++
 	if _, ok := v.(error); ok {
-		s.tailSeen = true
+		s.tailSeen++
 	}
 	return v, true
 }
@@ -502,7 +567,7 @@ func libRunner(code *gojq.Code, st *stream) runner {
 				if h, ok := err.(*gojq.HaltError); ok {
 					return &stopEv{halt: true, code: h.ExitCode(), val: h.Value()}
 				}
-				return &stopEv{msg: err.Error(), stream: st.tailSeen && !seen}
+				return &stopEv{msg: err.Error(), stream: st.tailSeen > seen}
 			}
 			if n >= 20000 {
 				return &stopEv{budget: true}
@@ -739,20 +804,21 @@ type expect struct {
 	haltMsg string
 	halted  bool
 
-	units     int // items of the input stream
-	events    int // documents, or events under --stream
-	errMid    bool
-	errLast   bool
-	haltMid   bool
-	tailErr   bool
-	nulErr    bool
-	nulMid    bool
-	notes     int
-	outputs   int
-	lastFalsy bool
-	kind      string // usage | indent | query | run
-	harness   string // budget / plumbing problem: the case is not judged
-	panic     string
+	units        int  // items of the input stream
+	events       int  // documents, or events under --stream
+	fileErrEarly bool // an input source other than the last one ends in an error
+	errMid       bool
+	errLast      bool
+	haltMid      bool
+	tailErr      bool
+	nulErr       bool
+	nulMid       bool
+	notes        int
+	outputs      int
+	lastFalsy    bool
+	kind         string // usage | indent | query | run
+	harness      string // budget / plumbing problem: the case is not judged
+	panic        string
 }
 
 func haltMessage(v any) string {
@@ -896,51 +962,107 @@ func bad(format string, args ...any) verdict {
 
 func judge(c cliCase) verdict {
 	// the case itself
-	if !isSpace(c.Sep) || !isSpace(c.End) {
-		return bad("separator is not white space")
-	}
-	docs := make([]any, len(c.Docs))
-	for i, d := range c.Docs {
-		v, err := parseDoc(d)
-		if err != nil {
-			return bad("document %q: %v", d, err)
-		}
-		docs[i] = v
-	}
 	if c.Items != nil && (!validItems(c.Items) || itemsText(c.Items) != c.Text) {
 		return bad("the query text is not the printed form of the term")
-	}
-	input := c.stdin()
-	{ // the byte stream really is these documents followed by an error iff a tail is given
-		d := json.NewDecoder(bytes.NewReader(input))
-		d.UseNumber()
-		n := 0
-		var err error
-		for {
-			var v any
-			if err = d.Decode(&v); err != nil {
-				break
-			}
-			if n >= len(docs) || !univ.Same(v, docs[n]) {
-				return bad("the stream does not decode to the listed documents")
-			}
-			n++
-		}
-		if n != len(docs) || (err == io.EOF) != (c.Tail == "") {
-			return bad("the stream decodes to %d documents, then %v", n, err)
-		}
 	}
 	args := c.argv()
 	o, rest, usage, outside := parseArgs(args)
 	if outside != "" {
 		return bad("%s", outside)
 	}
-	if len(rest) > 1 {
-		return bad("file arguments are outside the model")
-	}
 	for _, a := range args {
 		if strings.IndexByte(a, 0) >= 0 {
 			return bad("NUL in an argument")
+		}
+	}
+	if o.yaml && o.stream {
+		return bad("--yaml-input together with --stream is outside the model")
+	}
+	// the input sources
+	type source struct {
+		spec    fileSpec
+		name    string
+		vals    []any
+		content []byte
+	}
+	var srcs []source
+	if len(c.Files) == 0 {
+		srcs = []source{{spec: fileSpec{Kind: "stdin", Docs: c.Docs, Sep: c.Sep, Tail: c.Tail, End: c.End}}}
+		if len(rest) > 1 {
+			return bad("file arguments that are not listed in the case")
+		}
+	} else {
+		if len(c.Docs) > 0 || c.Tail != "" || c.NoQ {
+			return bad("a case with file arguments keeps its documents in the file list and has a query")
+		}
+		names := c.fileNames()
+		if !usage && (len(rest) != len(names)+1 || strings.Join(rest[1:], "\x00") != strings.Join(names, "\x00")) {
+			return bad("the positional arguments %q are not the query and the files %q", rest, names)
+		}
+		stdins := 0
+		for i, f := range c.Files {
+			srcs = append(srcs, source{spec: f, name: names[i]})
+			switch f.Kind {
+			case "stdin":
+				stdins++
+			case "missing":
+				if len(f.Docs) > 0 || f.Tail != "" {
+					return bad("a missing file has no content")
+				}
+			case "file":
+			default:
+				return bad("file kind %q", f.Kind)
+			}
+		}
+		if stdins > 1 {
+			return bad("standard input named twice")
+		}
+	}
+	var input []byte
+	fileErrEarly := false
+	for i := range srcs {
+		sp := srcs[i].spec
+		if !isSpace(sp.Sep) || !isSpace(sp.End) {
+			return bad("separator is not white space")
+		}
+		for _, d := range sp.Docs {
+			v, err := parseDoc(d)
+			if err != nil {
+				return bad("document %q: %v", d, err)
+			}
+			if o.yaml && !yamlSafe[d] {
+				return bad("document %q is not in the pool whose YAML reading is known", d)
+			}
+			srcs[i].vals = append(srcs[i].vals, v)
+		}
+		if o.yaml && sp.Tail != "" && !yamlTail[sp.Tail] {
+			return bad("tail %q is not in the pool of YAML texts that fail only at the end of the stream", sp.Tail)
+		}
+		if (sp.Tail != "" || sp.Kind == "missing") && i < len(srcs)-1 {
+			fileErrEarly = true
+		}
+		srcs[i].content = sourceText(o.yaml, sp.Docs, sp.Sep, sp.Tail, sp.End)
+		if sp.Kind == "stdin" {
+			input = srcs[i].content
+		}
+		if !o.yaml { // the bytes really are these documents followed by an error iff a tail is given
+			d := json.NewDecoder(bytes.NewReader(srcs[i].content))
+			d.UseNumber()
+			n := 0
+			var err error
+			for {
+				var v any
+				if err = d.Decode(&v); err != nil {
+					break
+				}
+				if n >= len(srcs[i].vals) || !univ.Same(v, srcs[i].vals[n]) {
+					return bad("the stream does not decode to the listed documents")
+				}
+				n++
+			}
+			if n != len(srcs[i].vals) || (err == io.EOF) != (sp.Tail == "") {
+				return bad("the stream decodes to %d documents, then %v", n, err)
+			}
 		}
 	}
 
@@ -953,7 +1075,7 @@ func judge(c cliCase) verdict {
 		exp = expect{kind: "indent", exit: 5, diags: 1}
 	default:
 		text := "."
-		if len(rest) == 1 {
+		if len(rest) >= 1 {
 			text = strings.TrimSpace(rest[0])
 		}
 		q, err := gojq.Parse(text)
@@ -961,24 +1083,31 @@ func judge(c cliCase) verdict {
 			exp = expect{kind: "query", exit: 3, diags: 1}
 			break
 		}
-		if o.stream {
-			if c.Tail != "" {
-				return bad("a truncated document under --stream is outside the model (C16)")
-			}
-			var evs []any
-			for i, d := range docs {
-				if !keysSorted(c.Docs[i]) {
-					return bad("--stream with unsorted or repeated keys in %q", c.Docs[i])
+		var units []any
+		for _, src := range srcs {
+			vals := src.vals
+			if o.stream {
+				if src.spec.Tail != "" && !streamTail[src.spec.Tail] {
+					return bad("under --stream only a tail that fails before any event is modelled (truncated documents are C16's)")
 				}
-				e, err := eventsOf(d)
-				if err != nil {
-					return bad("tostream: %v", err)
+				vals = nil
+				for i, d := range src.vals {
+					if !keysSorted(src.spec.Docs[i]) {
+						return bad("--stream with unsorted or repeated keys in %q", src.spec.Docs[i])
+					}
+					e, err := eventsOf(d)
+					if err != nil {
+						return bad("tostream: %v", err)
+					}
+					vals = append(vals, e...)
 				}
-				evs = append(evs, e...)
 			}
-			docs = evs
+			units = append(units, vals...)
+			if src.spec.Tail != "" || src.spec.Kind == "missing" {
+				units = append(units, tailError{})
+			}
 		}
-		st := newStream(o, docs, c.Tail != "")
+		st := newStream(o, units)
 		code, err := gojq.Compile(q, gojq.WithInputIter(st),
 			gojq.WithFunction("debug", 0, 0, func(v any, _ []any) any { st.debug(v); return v }),
 			gojq.WithFunction("stderr", 0, 0, func(v any, _ []any) any { st.stderr(v); return v }))
@@ -987,15 +1116,16 @@ func judge(c cliCase) verdict {
 			break
 		}
 		exp = loop(o, st, libRunner(code, st))
-		exp.events = len(docs)
+		exp.events = len(units)
+		exp.fileErrEarly = fileErrEarly
 		if exp.panic != "" {
 			return verdict{msg: "the library panicked: " + clip(exp.panic), o: o, exp: exp}
 		}
 		if exp.harness != "" {
 			return verdict{discard: exp.harness, o: o, exp: exp}
 		}
-		if c.Items != nil && len(rest) == 1 && rest[0] == c.Text {
-			st2 := newStream(o, docs, c.Tail != "")
+		if c.Items != nil && len(rest) >= 1 && rest[0] == c.Text {
+			st2 := newStream(o, units)
 			alg := loop(o, st2, algRunner(c.Items, st2))
 			var d string
 			switch {
@@ -1023,12 +1153,37 @@ func judge(c cliCase) verdict {
 	}
 
 	// the command
-	r := cmdline.Run(cmdline.Opt{Stdin: input}, args...)
+	opt := cmdline.Opt{Stdin: input}
+	if len(c.Files) > 0 {
+		dir, err := os.MkdirTemp("", "c15-files-")
+		if err != nil {
+			return verdict{discard: "scratch-directory", o: o, exp: exp}
+		}
+		defer os.RemoveAll(dir)
+		for _, src := range srcs {
+			if src.spec.Kind == "file" {
+				if err := os.WriteFile(filepath.Join(dir, src.name), src.content, 0o644); err != nil {
+					return verdict{discard: "scratch-directory", o: o, exp: exp}
+				}
+			}
+		}
+		opt.Dir = dir
+	}
+	r := cmdline.Run(opt, args...)
 	if r.TimedOut {
 		return verdict{discard: "cli-timeout", o: o, exp: exp}
 	}
 	v := verdict{o: o, exp: exp}
-	where := fmt.Sprintf("gojq %q on %q", args, clip(string(input)))
+	desc := clip(string(input))
+	if len(c.Files) > 0 {
+		desc = ""
+		for _, src := range srcs {
+			if src.spec.Kind != "missing" {
+				desc += src.name + "=" + clip(string(src.content)) + "; "
+			}
+		}
+	}
+	where := fmt.Sprintf("gojq %q on %q", args, desc)
 	if strings.Contains(r.Stderr, "goroutine ") && (strings.Contains(r.Stderr, "panic:") || strings.Contains(r.Stderr, "fatal error:")) || r.Exit < 0 {
 		v.msg = fmt.Sprintf("%s: the command crashed (exit %d): %s", where, r.Exit, clip(r.Stderr))
 		return v
@@ -1127,7 +1282,19 @@ func do(sub string, c cliCase) string {
 		if e.diags > 1 {
 			rec.Class("event/several-diagnostics")
 		}
-		if o.stream {
+		if len(c.Files) > 0 {
+			mode := "json"
+			if o.yaml {
+				mode = "yaml"
+			} else if o.stream {
+				mode = "stream"
+			}
+			rec.Class(fmt.Sprintf("files/%s,n=%t,s=%t,error-before-last-file=%t", mode, o.null, o.slurp, e.fileErrEarly))
+			if e.fileErrEarly {
+				rec.NT(fmt.Sprintf("%q|%q", c.argv(), c.Files))
+				rec.Class("nontrivial")
+			}
+		} else if o.stream {
 			keeps := o.slurp || o.null && strings.Contains(c.Text, "input")
 			rec.Class(fmt.Sprintf("stream/events-kept-alive=%t", keeps))
 			if keeps && e.events >= 3 && e.exit == 0 {
@@ -1142,6 +1309,9 @@ func do(sub string, c cliCase) string {
 		rec.Class("exit/" + strconv.Itoa(e.exit))
 	}
 	in := string(c.stdin())
+	for i, f := range c.Files {
+		in += fmt.Sprintf("[%s %s: %q tail %q] ", f.Kind, c.fileNames()[i], f.Docs, f.Tail)
+	}
 	rec.Sample(map[string]any{"argv": c.argv(), "stdin": clip(in), "exit": e.exit, "stdout": clip(string(e.stdout))})
 	return v.msg
 }
@@ -1191,6 +1361,34 @@ var badQueries = []string{`.[`, `1 +`, `if . then 1`, `{`, `"abc`, `. |`, `1 as 
 
 var badArgs = []string{`--bogus`, `-x`, `-rx`, `--tab=1`, `--exit-status=true`, `--indent=foo`, `--indent=`, `--compact-output=1`, `--sort-keys`, `-S`, `-a`, `--seq`,
 	`--indent=1.5`, `--raw-output1`, `--null-input=`, `-nq`, `--ascii-output`, `--unbuffered`}
+
+// documents whose YAML reading (flow style after a "---" line) is the value
+// of the JSON text: small integers, plain strings, null, booleans, containers
+var yamlDocs = []string{`1`, `2`, `0`, `-5`, `null`, `true`, `false`, `"a"`, `"x y"`, `""`, `[]`, `{}`, `[1,[2]]`, `{"a":[],"b":1}`, `[null]`,
+	`[false,"s"]`, `{"a":{"b":[1,2]}}`, `[1,2,3]`, `{"a":"z"}`}
+
+// YAML texts that are refused only when the end of the stream is reached (an
+// unclosed flow collection), so that every document before them is complete
+var yamlTails = []string{`[1, 2`, `{a: 1`}
+
+// JSON tails that fail before the --stream parser has produced any event
+var streamTails = []string{`]`, `@`, `}`, `'x'`, `tru`, `nul`}
+
+var yamlSafe, yamlTail, streamTail = setOf(yamlDocs), setOf(yamlTails), setOf(streamTails)
+
+func setOf(xs []string) map[string]bool {
+	m := map[string]bool{}
+	for _, x := range xs {
+		m[x] = true
+	}
+	return m
+}
+
+const tryInput5 = `(try input catch "E"), (try input catch "E"), (try input catch "E"), (try input catch "E"), (try input catch "E")`
+
+var fileQueries = []string{`.`, `[inputs]`, tryInput5, `., (try input catch "E")`, `[., (try input catch "E")]`, `first(inputs)`, `[limit(2; inputs)]`,
+	`try input catch "E"`, `.[]?`, `[.[]?]`, `length`, `input`, `inputs`, `., input`, `[inputs] | length`, `reduce inputs as $x (0; . + 1)`, `tojson`,
+	`[., input]`, `[try input catch "E", try input catch "E"]`, `(try input catch "E") as $a | [$a, (try input catch "E")]`}
 
 func ip(n int) *int { return &n }
 
@@ -1571,12 +1769,126 @@ streamSets:
 		rec.Exhaustive(fmt.Sprintf("--stream: %d document sets x %d flag lists x %d queries", len(streamDocs), len(streamArgs), len(streamQueries)), complete)
 	}
 
+	// (E3) several file arguments, some ending in a malformed tail, missing,
+	// empty or standard input: every source contributes its complete values,
+	// then one error, and the next source continues
+	file := func(tail string, docs ...string) fileSpec { return fileSpec{Kind: "file", Docs: docs, Tail: tail} }
+	jsonSets := [][]fileSpec{
+		{file(`{"a":`, `1`, `2`), file("", `3`)},
+		{file(""), file(`]`), file("", `"s"`, `[1,[2]]`), file(`tru`, `4`)},
+		{file("", `1`), {Kind: "missing"}, {Kind: "stdin", Docs: []string{`9`, `8`}, Sep: " "}, file("", `2`)},
+		{file(`]`, `[1,2]`), file("", `{"a":[3,4]}`)},
+		{file(`@`), file(`}`, `null`), file("", `false`)},
+	}
+	yamlSets := [][]fileSpec{
+		{file(`[1, 2`, `1`, `"a"`), file("", `true`)},
+		{file(`{a: 1`), file(""), file("", `[1,[2]]`, `{"a":"z"}`)},
+		{file("", `2`), {Kind: "stdin", Docs: []string{`"x y"`}, Tail: `[1, 2`}, file("", `null`)},
+	}
+	type fmode struct {
+		pre  []string
+		text string
+	}
+	jsonModes := []fmode{{nil, `.`}, {[]string{"-c"}, `.[]?`}, {[]string{"-n", "-c"}, `[inputs]`}, {[]string{"-n"}, tryInput5}, {[]string{"-s", "-c"}, `.`},
+		{[]string{"--stream", "-c"}, `.`}, {[]string{"--stream", "-n", "-c"}, `[inputs]`}, {[]string{"--stream", "-n", "-c"}, tryInput5},
+		{[]string{"-c"}, `., (try input catch "E")`}, {[]string{"-e"}, `.`}, {[]string{"-r", "-n"}, `inputs`}, {[]string{"-c", "-n", "-s"}, `input`}}
+	yamlModes := []fmode{{[]string{"--yaml-input", "-c"}, `.`}, {[]string{"--yaml-input", "-n", "-c"}, `[inputs]`}, {[]string{"-s", "--yaml-input"}, `.`},
+		{[]string{"-n", "--yaml-input"}, tryInput5}}
+	complete = true
+	runFixed := func(sets [][]fileSpec, modes []fmode) {
+		for _, set := range sets {
+			for _, m := range modes {
+				idx++
+				if !rec.Mine(idx) {
+					continue
+				}
+				c := cliCase{Pre: m.pre, Text: m.text, Docs: []string{}, Files: set}
+				if m.pre != nil && m.pre[0] == "--stream" {
+					fits := true
+					for _, f := range set {
+						fits = fits && (f.Tail == "" || streamTail[f.Tail])
+					}
+					if !fits {
+						continue
+					}
+				}
+				if msg := do("files-fixed", c); msg != "" {
+					rec.Direct("files-fixed", c, "%s", msg)
+					complete = false
+				}
+			}
+		}
+	}
+	runFixed(jsonSets, jsonModes)
+	runFixed(yamlSets, yamlModes)
+	rec.Exhaustive(fmt.Sprintf("file arguments: %d JSON sets x %d modes, %d YAML sets x %d modes", len(jsonSets), len(jsonModes), len(yamlSets), len(yamlModes)), complete)
+
 	anyFlags := [9]int{2, 2, 1, 3, 1, 2, 3, 1, 1}
+
+	// 2..4 input sources named on the command line
+	rec.Rapid(t, "files", rec.Scale(2000, 60000), func(t *rapid.T) {
+		c := cliCase{Docs: []string{}}
+		mode := rapid.SampledFrom([]string{"json", "json", "json", "yaml", "stream"}).Draw(t, "mode")
+		n := rapid.IntRange(2, 4).Draw(t, "files")
+		stdinUsed := false
+		for i := 0; i < n; i++ {
+			f := fileSpec{Kind: "file"}
+			switch k := rapid.IntRange(0, 19).Draw(t, "kind"); {
+			case k == 0:
+				f.Kind = "missing"
+			case k <= 2 && !stdinUsed:
+				f.Kind, stdinUsed = "stdin", true
+			}
+			if f.Kind != "missing" {
+				nd := rapid.IntRange(0, 3).Draw(t, "docs")
+				for j := 0; j < nd; j++ {
+					switch mode {
+					case "yaml":
+						f.Docs = append(f.Docs, rapid.SampledFrom(yamlDocs).Draw(t, "doc"))
+					case "stream":
+						f.Docs = append(f.Docs, genDocText(t, 1))
+					default:
+						f.Docs = append(f.Docs, rapid.SampledFrom(docPool).Draw(t, "doc"))
+					}
+				}
+				if rapid.IntRange(0, 2).Draw(t, "tail") == 0 {
+					switch mode {
+					case "yaml":
+						f.Tail = rapid.SampledFrom(yamlTails).Draw(t, "tailtext")
+					case "stream":
+						f.Tail = rapid.SampledFrom(streamTails).Draw(t, "tailtext")
+					default:
+						f.Tail = rapid.SampledFrom(tails).Draw(t, "tailtext")
+					}
+				}
+				f.Sep = rapid.SampledFrom(seps).Draw(t, "sep")
+				f.End = rapid.SampledFrom([]string{"", "\n", "\n", " "}).Draw(t, "end")
+			}
+			c.Files = append(c.Files, f)
+		}
+		genFlags(t, &c, [9]int{1, 1, 1, 5, 1, 1, 1, 3, 2})
+		c.Dash = false
+		if mode != "json" {
+			p := rapid.IntRange(0, len(c.Pre)).Draw(t, "at")
+			if p > 0 && c.Pre[p-1] == "--indent" {
+				p--
+			}
+			c.Pre = append(append(append([]string{}, c.Pre[:p]...), map[string]string{"yaml": "--yaml-input", "stream": "--stream"}[mode]), c.Pre[p:]...)
+		}
+		if rapid.IntRange(0, 3).Draw(t, "alg") == 0 {
+			algQuery(t, &c, bias{val: 1, dot: 5, iter: 1, err: 1, halt: 1, empty: 1, input: 4, arr: 3, cond: 2})
+		} else {
+			c.Text = rapid.SampledFrom(fileQueries).Draw(t, "query")
+		}
+		if msg := do("files", c); msg != "" {
+			t.Fatalf("%s", rec.Fail("files", c, "%s", msg))
+		}
+	})
 
 	// --stream: the events the command feeds to the query are the library's
 	// tostream events of each complete document; they stay intact when the
 	// query (or -s) keeps several of them
-	rec.Rapid(t, "stream", rec.Scale(2500, 110000), func(t *rapid.T) {
+	rec.Rapid(t, "stream", rec.Scale(2500, 60000), func(t *rapid.T) {
 		var c cliCase
 		n := rapid.IntRange(0, 4).Draw(t, "docs")
 		for i := 0; i < n; i++ {
@@ -1605,7 +1917,7 @@ streamSets:
 
 	// error continuation: errors at chosen inputs and output positions, type
 	// errors from data, malformed tails
-	rec.Rapid(t, "continue", rec.Scale(3000, 150000), func(t *rapid.T) {
+	rec.Rapid(t, "continue", rec.Scale(3000, 130000), func(t *rapid.T) {
 		var c cliCase
 		genStream(t, &c, streamBias{maxDocs: 5, tailOdds: 3})
 		genFlags(t, &c, anyFlags)
@@ -1620,7 +1932,7 @@ streamSets:
 	})
 
 	// halt and halt_error: status modulo 256, message, nothing afterwards
-	rec.Rapid(t, "halt", rec.Scale(3000, 140000), func(t *rapid.T) {
+	rec.Rapid(t, "halt", rec.Scale(3000, 120000), func(t *rapid.T) {
 		var c cliCase
 		genStream(t, &c, streamBias{maxDocs: 5, tailOdds: 7})
 		genFlags(t, &c, anyFlags)
@@ -1631,7 +1943,7 @@ streamSets:
 	})
 
 	// --exit-status bookkeeping
-	rec.Rapid(t, "exit", rec.Scale(2500, 110000), func(t *rapid.T) {
+	rec.Rapid(t, "exit", rec.Scale(2500, 95000), func(t *rapid.T) {
 		var c cliCase
 		genStream(t, &c, streamBias{maxDocs: 4, tailOdds: 9})
 		genFlags(t, &c, [9]int{1, 1, 1, 3, 1, 1, 7, 1, 1})
@@ -1646,7 +1958,7 @@ streamSets:
 	})
 
 	// terminators, raw strings, NUL rejection, layouts
-	rec.Rapid(t, "terminators", rec.Scale(3000, 140000), func(t *rapid.T) {
+	rec.Rapid(t, "terminators", rec.Scale(3000, 120000), func(t *rapid.T) {
 		var c cliCase
 		genStream(t, &c, streamBias{maxDocs: 4, tailOdds: 9, hostile: true})
 		genFlags(t, &c, [9]int{3, 3, 4, 2, 2, 3, 1, 1, 1})
@@ -1657,7 +1969,7 @@ streamSets:
 	})
 
 	// -n / -s with input and inputs
-	rec.Rapid(t, "inputs", rec.Scale(2500, 110000), func(t *rapid.T) {
+	rec.Rapid(t, "inputs", rec.Scale(2500, 95000), func(t *rapid.T) {
 		var c cliCase
 		genStream(t, &c, streamBias{maxDocs: 5, tailOdds: 2})
 		genFlags(t, &c, [9]int{1, 1, 1, 4, 1, 1, 2, 4, 3})
@@ -1672,7 +1984,7 @@ streamSets:
 	})
 
 	// statuses 2 and 3, the indentation range, a missing query
-	rec.Rapid(t, "usage", rec.Scale(1500, 40000), func(t *rapid.T) {
+	rec.Rapid(t, "usage", rec.Scale(1500, 35000), func(t *rapid.T) {
 		var c cliCase
 		genStream(t, &c, streamBias{maxDocs: 3, tailOdds: 5, simple: true})
 		genFlags(t, &c, anyFlags)
